@@ -69,6 +69,108 @@ def new_helpers(js):
     return out
 
 
+def _features(f):
+    """rename-invariant summary of a body: block count, argument count, sorted callees outside the crate, number of local calls"""
+    ext, loc = [], 0
+    for b in f["body"]["blocks"]:
+        t = b["term"]
+        if t["k"] != "call":
+            continue
+        fn = t.get("func", {}).get("const", {}).get("fn") if isinstance(t.get("func"), dict) else None
+        if not fn:
+            continue
+        if fn.get("local"):
+            loc += 1
+        else:
+            ext.append(_short(fn.get("path") or fn.get("orig") or "?"))
+    return [len(f["body"]["blocks"]), sorted(ext), loc]
+
+
+def fn_renames(js):
+    """{current short key: reference short key} for private functions of crate `raft` that were merely renamed:
+    the reference function vanished, and exactly one new function of the same impl/module has its signature
+    (ties are broken by an identical body summary). Everything else is left to the role finders."""
+    ref = _ref_table()
+    if ref is None:
+        return {}
+    fns = {}
+    for j in js:
+        if j["crate"] == "raft":
+            fns.update(j["fns"])
+    cur_short = {_short(k): k for k, f in fns.items() if f["kind"] != "Closure"}
+    ref_sigs = ref["fns"]
+    new = [s for s in cur_short if s not in ref_sigs]
+    vanished = {s: v for s, v in ref_sigs.items() if s not in cur_short}
+    if not new or not vanished:
+        return {}
+    m = {}
+    for s in new:
+        f = fns[cur_short[s]]
+        if f.get("vis") == "Public" or f.get("impl_trait"):
+            continue
+        sig = _sig(f)
+        par = s.rsplit("::", 1)[0]
+        cands = [o for o, v in vanished.items() if o.rsplit("::", 1)[0] == par and v[0] == sig[0] and v[1] == sig[1] and tuple(v[2]) == sig[2]]
+        if len(cands) > 1:
+            ft = _features(f)
+            cands = [o for o in cands if len(vanished[o]) > 3 and vanished[o][3] == ft]
+        if len(cands) == 1:
+            m[s] = cands[0]
+    # injective only
+    tgt = {}
+    for s, o in m.items():
+        tgt.setdefault(o, []).append(s)
+    return {s: o for s, o in m.items() if len(tgt[o]) == 1}
+
+
+def apply_fn_renames(js, ren):
+    """Rewrite the raw facts so that a renamed private function carries its reference name again (keys, names,
+    callee paths, fn-item types, closure parents)."""
+    if not ren:
+        return
+    pairs = [(n, o, n.rsplit("::", 1)[1], o.rsplit("::", 1)[1]) for n, o in ren.items()]
+    pats = [(n, re.compile(r"::%s\b" % re.escape(nn)), "::" + on) for n, o, nn, on in pairs]
+
+    def fix(v):
+        if "::" not in v:
+            return v
+        sv = None
+        for n, pat, rep in pats:
+            if pat.search(v):
+                if sv is None:
+                    sv = _short(v)
+                if n in sv:
+                    v = pat.sub(rep, v)
+                    sv = None
+        return v
+
+    def walk(o):
+        if isinstance(o, dict):
+            for k in list(o.keys()):
+                v = o[k]
+                if isinstance(v, str):
+                    if k in ("orig", "path", "ty", "closure", "parent", "root", "callee"):
+                        o[k] = fix(v)
+                else:
+                    walk(v)
+        elif isinstance(o, list):
+            for v in o:
+                walk(v)
+
+    for j in js:
+        walk(j["fns"])
+        if j["crate"] != "raft":
+            continue
+        for k in list(j["fns"].keys()):
+            k2 = fix(k)
+            f = j["fns"][k]
+            if k2 != k:
+                j["fns"][k2] = j["fns"].pop(k)
+            for n, o, nn, on in pairs:
+                if f.get("name") == nn and _short(k2).startswith(o):
+                    f["name"] = on
+
+
 def _map_place(pl, loff):
     pl["l"] += loff
     for pr in pl.get("p", []):
@@ -201,6 +303,6 @@ def write_ref_table(js, path=None):
             if f["kind"] == "Closure":
                 continue
             s = _sig(f)
-            tab[_short(k)] = [s[0], s[1], list(s[2])]
+            tab[_short(k)] = [s[0], s[1], list(s[2]), _features(f)]
     json.dump({"fns": tab}, open(path, "w"), indent=0, sort_keys=True)
     return len(tab)
